@@ -187,7 +187,7 @@ func TestVerifC03(t *testing.T) {
 // ---------------------------------------------------------------- C05
 
 // vfC05Unit: one authenticated same-role request with tie-breaker T against an agent with tie-breaker L.
-func vfC05Unit(e *vfEnv, r *vfResult, idx int, local, remote uint64, agentControlling bool, useCand bool) {
+func vfC05Unit(e *vfEnv, r *vfResult, idx int, local, remote uint64, agentControlling bool, useCand bool, afterSelection bool) {
 	s := newVfSession(e, r, idx, "c05unit")
 	defer s.closeAll()
 	s.desc["local_tiebreaker"], s.desc["remote_tiebreaker"], s.desc["agent_controlling"] = fmt.Sprint(local), fmt.Sprint(remote), agentControlling
@@ -198,6 +198,17 @@ func vfC05Unit(e *vfEnv, r *vfResult, idx int, local, remote uint64, agentContro
 	}
 	if local == 0 {
 		s.A.a.tieBreaker = 0 // cfg value 0 means "leave random"; force it
+	}
+	s.desc["after_selection"] = afterSelection
+	if afterSelection {
+		// the conflict arrives only after a normal nomination exchange has completed
+		if !s.peerConnect() {
+			r.inconclusive(1)
+
+			return
+		}
+		s.dropAll()
+		s.P.take()
 	}
 	role := "controlled"
 	if agentControlling {
@@ -234,7 +245,7 @@ func vfC05Unit(e *vfEnv, r *vfResult, idx int, local, remote uint64, agentContro
 	}
 	kept := after.Controlling == agentControlling
 	wit := map[string]any{"local": fmt.Sprint(local), "remote": fmt.Sprint(remote), "agent_controlling": agentControlling}
-	cls := fmt.Sprintf("%s/keep=%v", role, wantKeep)
+	cls := fmt.Sprintf("%s/keep=%v/after-selection=%v", role, wantKeep, afterSelection)
 	r.set("c05_cases", cls)
 	if gotSuccess {
 		s.viol("C05", "conflict-answered-with-success", fmt.Sprintf("same-role request (agent %s, local %d, remote %d) was answered with a success response", role, local, remote), wit)
@@ -258,7 +269,10 @@ func vfC05Unit(e *vfEnv, r *vfResult, idx int, local, remote uint64, agentContro
 	if after.Selected != before.Selected {
 		s.viol("C05", "conflict-request-selected-pair", "a role-conflicting request changed the selected pair", wit)
 	}
-	for _, p := range after.Pairs {
+	for i, p := range after.Pairs {
+		if i < len(before.Pairs) && before.Pairs[i].ID == p.ID && before.Pairs[i].NomOnSucc == p.NomOnSucc && before.Pairs[i].Nominated == p.Nominated {
+			continue
+		}
 		if p.NomOnSucc || p.Nominated {
 			s.viol("C05", "conflict-request-nominated", fmt.Sprintf("a role-conflicting request left pair %s|%s nominated", p.Local, p.Remote), wit)
 		}
@@ -364,7 +378,7 @@ func TestVerifC05(t *testing.T) {
 					if idx%e.nshards != e.shard || (e.only >= 0 && idx != e.only) {
 						continue
 					}
-					vfC05Unit(e, r, idx, l, rm, ctrl, idx%3 == 0)
+					vfC05Unit(e, r, idx, l, rm, ctrl, idx%3 == 0, idx%4 == 1)
 					r.distinct(fmt.Sprintf("unit-b/%d/%d/%v", l, rm, ctrl))
 				}
 			}
@@ -384,8 +398,8 @@ func TestVerifC05(t *testing.T) {
 			if e.only >= 0 && 1000+i != e.only {
 				continue
 			}
-			vfC05Unit(e, r, 1000+i, l, rm, i%2 == 0, i%5 == 0)
-			r.distinct(fmt.Sprintf("unit-r/%v/%v/%v", l >= rm, l == rm, i%2 == 0))
+			vfC05Unit(e, r, 1000+i, l, rm, i%2 == 0, i%5 == 0, i%3 == 0)
+			r.distinct(fmt.Sprintf("unit-r/%v/%v/%v/%v", l >= rm, l == rm, i%2 == 0, i%3 == 0))
 		}
 		m := e.n(600, 40000)
 		for i := 0; i < m; i++ {
